@@ -118,7 +118,7 @@ class Builtins(OpsMixin, LoopsMixin):
     # ------------------------------------------------------------------
     # attribute access
     # ------------------------------------------------------------------
-    def field_sort(self, ex, cls, attr):
+    def field_sort(self, ex, cls, attr, undeclared_ok=False):
         for c in ex.repo.mro(cls) or [cls]:
             flds = ex.reg.classes.get(c)
             if flds and attr in flds:
@@ -126,6 +126,11 @@ class Builtins(OpsMixin, LoopsMixin):
         flds = ex.reg.classes.get(cls)
         if flds and attr in flds:
             return flds[attr]
+        if undeclared_ok and cls in ex.repo.classes and attr.startswith("_") and not attr.startswith("__"):
+            # a private instance field the contracts do not know (e.g. added by a later change): an unconstrained
+            # dynamic value per object; it is outside every frame condition
+            ex.undeclared_fields.add(attr)
+            return Dyn
         return None
 
     def heap_array(self, p, attr, sort):
@@ -168,7 +173,7 @@ class Builtins(OpsMixin, LoopsMixin):
                 if kind == "method":
                     yield p, self.bind_method(v, pay)
                     return
-                srt = self.field_sort(ex, v.cls, attr)
+                srt = self.field_sort(ex, v.cls, attr, undeclared_ok=(kind is None))
                 if srt is not None:
                     arr = self.heap_array(p, attr, srt)
                     r = term_to_elem(arr[v.t], srt)
@@ -314,7 +319,7 @@ class Builtins(OpsMixin, LoopsMixin):
                 if not ex.spec:
                     ex.raise_(p, "AttributeError", node)
                 return []
-            srt = self.field_sort(ex, obj.cls, attr)
+            srt = self.field_sort(ex, obj.cls, attr, undeclared_ok=True)
             if srt is None:
                 raise Unsupported("assignment to undeclared field %s.%s at line %s" % (obj.cls, attr, node.lineno))
             arr = self.heap_array(p, attr, srt)
@@ -403,6 +408,11 @@ class Builtins(OpsMixin, LoopsMixin):
                 yield from ex.apply_contract(p, c, [], {}, node, self_val=v)
             else:
                 yield p, VFunc("contract", c.qualname, c, self_val=v)
+            return
+        if attr.startswith("set_"):
+            # configuration method of a library object without a contract: the object is updated in place to an
+            # unknown state (sound over-approximation); anything a contract says about it afterwards must be re-proved
+            yield p, VFunc("builtin", "opaque.unknown_setter", self_val=v)
             return
         raise Unsupported("attribute .%s of opaque %s at line %s" % (attr, v.tag, getattr(node, "lineno", "?")))
 
@@ -980,6 +990,10 @@ class Builtins(OpsMixin, LoopsMixin):
     def b_map(self, ex, p, args, kwargs, node, f):
         raise Unsupported("map() at line %s" % getattr(node, "lineno", "?"))
 
+    def b_unknown_setter(self, ex, p, args, kwargs, node, f):
+        self.rebind_aliases(ex, p, f.self_val, VOpaque(V.fresh("cfg", IntS), getattr(f.self_val, "tag", None)))
+        yield p, NONE
+
     def b_getattr(self, ex, p, args, kwargs, node, f):
         attr = z3.simplify(args[1].t).as_string()
         yield from self.getattr(ex, p, args[0], attr, node)
@@ -1077,7 +1091,7 @@ class Builtins(OpsMixin, LoopsMixin):
         "hasattr": b_hasattr, "range": b_range, "enumerate": b_enumerate, "zip": b_zip,
         "any": b_anyall, "all": b_anyall, "sum": b_sum, "super": b_super, "print": b_noop,
         "hash": b_hash, "slice.indices": b_slice_indices, "map": b_map, "getattr": b_getattr,
-        "warnings.warn": b_noop, "gc.collect": b_noop,
+        "warnings.warn": b_noop, "gc.collect": b_noop, "opaque.unknown_setter": b_unknown_setter,
     }
 
     # ------------------------------------------------------------------
